@@ -239,6 +239,13 @@ Evmodel == /\ IsKind("evmodel")
                    IF SameUpToMerge(want, g.got) THEN g ELSE [g EXCEPT !.drift = Append(@, [model |-> want, observed |-> g.got])]
            /\ UNCHANGED <<W, seq>> /\ Next1
 
+\* fault injection: the recorded flags of a watch were made invalid; registering the next new sub-directory of that
+\* recursive watch fails with EINVAL, which is reported on Errors (a genuine failure)
+Wflags == /\ IsKind("wflags")
+          /\ W' = IF Line.w \in DOMAIN W /\ Line.ok THEN [W EXCEPT ![Line.w] = [@ EXCEPT !.flags = @ \cup {"regfault"}]] ELSE W
+          /\ g' = IF Line.ok THEN g ELSE Infra("wflags: no such watch")
+          /\ UNCHANGED seq /\ Next1
+
 \* ---- the worker process died inside this scenario ---------------------------
 Crash == /\ IsKind("crash")
          /\ g' = IF Line.go THEN GBad({"*"}, "crash:" \o Line.cls)
@@ -254,7 +261,7 @@ Other == /\ l <= Len(Trace) /\ Line.k \in {"recurse", "bad", "chdir"}
          /\ g' = IF Line.k = "bad" THEN Infra("bad step") ELSE g
          /\ UNCHANGED <<W, seq>> /\ Next1
 
-Next == (Reset \/ End \/ New \/ Fs \/ Call \/ JoinT \/ Recv \/ Drain \/ Obs \/ Model \/ Evmodel \/ Fault \/ Crash \/ Other)
+Next == (Reset \/ End \/ New \/ Fs \/ Call \/ JoinT \/ Recv \/ Drain \/ Obs \/ Model \/ Evmodel \/ Fault \/ Wflags \/ Crash \/ Other)
         /\ TLCSet(1, IF TLCGet(1) > l' THEN TLCGet(1) ELSE l')
 
 Spec == Init /\ [][Next]_vars
